@@ -337,7 +337,7 @@ def describe_leaf(e):
         return found
     if isinstance(e, OrphanedReturn):
         return ["orphan_unknown", repr(e.value)[:40]]
-    return ["other", type(e).__name__]
+    return ["other", type(e).__name__, str(e)[:160]]
 
 
 def classify_accept_exc(e):
